@@ -50,7 +50,7 @@ def gen_case(rng, what):
 
 
 def generate(rng, tier):
-    reps = 1 if tier == "quick" else 8
+    reps = 2 if tier == "quick" else 12
     return [gen_case(rng, w) for _ in range(reps) for w in DETERMINISTIC + SAMPLING + METRICS + METRICS]
 
 
